@@ -29,7 +29,7 @@ def pair(h, lo, hi):
     if h.sym:
         h.unit(n)
     else:
-        n = n / math.sqrt(float(nsq(n)))
+        n = unitize(n)
     t = h.angle('t', lo, hi)
     st, ct = h.sincos(t)
     rel = [ct, st * n[0], st * n[1], st * n[2]]
@@ -68,7 +68,7 @@ def _(h):
     h.raises('s < 0', lambda: base.slerp(q0, q1, -e), ValueError)
 
 
-@claim('slerp-shortest-arc', split=True, values=True)
+@claim('slerp-shortest-arc', split=True, values=True, timeout={'quick': 6, 'thorough': 120})
 def _(h):
     """q1 given with the far sign: shortest=True must take the short way round (same rotation path as with -q1)"""
     q0, q1, n, t = pair(h, 1e-3, 1.5)
@@ -101,7 +101,7 @@ def _(h):
     h.eq('SO3.interp', SO3(R, check=False).interp(s).A, Rs, tol=1e-6)
 
 
-@claim('trinterp-se3', split=True, values=True)
+@claim('trinterp-se3', split=True, values=True, tier='thorough')
 def _(h):
     R0, h0 = z_pose(h, 'h0')
     R1, h1 = z_pose(h, 'h1')
@@ -206,7 +206,7 @@ def _(h):
     h.same('second', r.data[1], X.interp(s2).A)
 
 
-@claim('UnitQuaternion.interp-shortest', split=True, values=True)
+@claim('UnitQuaternion.interp-shortest', split=True, values=True, timeout={'quick': 6, 'thorough': 120})
 def _(h):
     """dest given with the far sign and shortest=True: the class method must follow the short arc like slerp"""
     q0, q1, n, t = pair(h, 1e-3, 1.5)
